@@ -9,6 +9,7 @@ package main
 import (
 	"encoding/json"
 	"fmt"
+	"os"
 
 	"github.com/bytom/bytom/consensus"
 	"github.com/bytom/bytom/crypto/ed25519/chainkd"
@@ -74,7 +75,7 @@ func build(n int, thorough bool) *fam {
 	}
 	// subsets of signers
 	var subsets [][]int
-	if n <= 5 {
+	if n <= 5 || thorough {
 		for m := 0; m < 1<<uint(n); m++ {
 			var s []int
 			for i := 0; i < n; i++ {
@@ -97,6 +98,13 @@ func build(n int, thorough bool) *fam {
 			}
 		}
 	}
+	votes := func(vs []int, s, t int) []int {
+		var h []int
+		for _, v := range vs {
+			h = append(h, V(v, s, t))
+		}
+		return h
+	}
 	for _, s := range subsets {
 		// A: P2P votes
 		h := []int{B(c1), B(c2)}
@@ -108,18 +116,18 @@ func build(n int, thorough bool) *fam {
 		if len(s) > 0 {
 			hist(fmt.Sprintf("hdr%v", s), true, B(c1), BSL(c2, 0, s, false), R, B(c3))
 		}
+		// thorough: the subset split between the header (first half) and P2P votes (second half),
+		// the P2P part delivered before and after a restart
+		if thorough && len(s) >= 2 {
+			k := len(s) / 2
+			hist(fmt.Sprintf("mixed%v", s), true, append(append([]int{B(c1), BSL(c2, 0, s[:k], false)}, votes(s[k:], 0, c2)...), R, B(c3))...)
+			hist(fmt.Sprintf("mixed-restart%v", s), true, append(append([]int{B(c1), BSL(c2, 0, s[:k], false), R}, votes(s[k:], 0, c2)...), B(c3))...)
+		}
 	}
 	// C: thr-1 valid votes plus one invalid of each kind must not justify
 	var base []int
 	for i := 0; i < thr-1; i++ {
 		base = append(base, i)
-	}
-	votes := func(vs []int, s, t int) []int {
-		var h []int
-		for _, v := range vs {
-			h = append(h, V(v, s, t))
-		}
-		return h
 	}
 	pre := []int{B(c1), B(c2)}
 	if thr-1 < n {
@@ -158,11 +166,11 @@ func build(n int, thorough bool) *fam {
 	hist("vote-for-genesis", true, B(c1), B(c2), V(0, 0, 0), V(0, c2, 0), R, V(0, 0, 0), B(c3))
 	hist("skip-link-does-not-finalize", true, append(append([]int{B(c1), B(c2), B(c3), B(c4)}, votes(full, 0, c4)...), R, B(c5))...)
 	hist("cached-votes-before-target", true, append(append([]int{}, votes(full, 0, c2)...), B(c1), B(c2), B(c3), R, B(c4))...)
-	_ = thorough
 	return f
 }
 
-var fams = map[int]*fam{}
+var thorough bool
+var lastFam *fam
 
 // buildElected: a validator-set change inside the epoch the target closes. On a prelude, block p1 carries a vote
 // transaction electing key X (not a federation member); checkpoint p2 closes that epoch: the votes for p2 still
@@ -226,8 +234,10 @@ func getFam(n int) *fam {
 		return buildElected()
 	}
 	// worlds of different n need different process-wide parameters: rebuild on every switch
-	f := build(n, true)
-	return f
+	if lastFam == nil || lastFam.n != n {
+		lastFam = build(n, thorough)
+	}
+	return lastFam
 }
 
 func runCase(h []int, _ json.RawMessage) (out xplore.Out) {
@@ -267,6 +277,7 @@ func runCase(h []int, _ json.RawMessage) (out xplore.Out) {
 
 func main() {
 	spec := &xplore.Spec{Name: "c17", Run: runCase, Recycle: 200}
+	thorough = os.Getenv("VERIF_TIER") == "thorough"
 	if par.IsWorker() {
 		xplore.Worker(spec)
 	}
@@ -296,7 +307,7 @@ func main() {
 	run.Set("traces_validated_against_impl", st.Checks)
 	run.Set("histories", len(items))
 	run.Set("validator_set_sizes", sizes)
-	run.Set("rule", "per validator-set size n: every subset of signers (n<=5) or every subset size from both ends of the slot range (n>5), delivered as P2P votes and as header-carried links, plus forged / non-validator / all-slot-forged signatures, unjustified sources, direct and skip links, cached votes, each with a restart and a follow-up event; after EVERY event the node's justified set and finalized root are compared with the reference closure")
+	run.Set("rule", "per validator-set size n: every subset of signers (n<=5; thorough: every n, plus each subset split between header and P2P votes around a restart) or every subset size from both ends of the slot range (n>5, quick), delivered as P2P votes and as header-carried links, plus forged / non-validator / all-slot-forged signatures, unjustified sources, direct and skip links, cached votes, each with a restart and a follow-up event; after EVERY event the node's justified set and finalized root are compared with the reference closure")
 	run.Assume("federation validator sets of size n, plus one world (n=0 in the samples) in which a vote transaction elects a new single-key validator set that takes over in the next epoch; E=2")
 	run.Finish()
 }
